@@ -56,7 +56,20 @@ func (g *Generator) generateMethodFunction(obj *tlparser.Method) jen.Code {
 	// трабла только в том, что нельзя просто так взять, и получить bool из MakeRequest. так что
 	// возвращаем tl.Bool
 	if obj.Response.Type == "Bool" {
-		resp = jen.Op("*").Qual(tlPackagePath, "PseudoBool")
+		resp = jen.Bool()
+		if obj.Response.IsList {
+			resp = jen.Index().Add(resp)
+		}
+	}
+
+	// what is returning with the error: nil for objects, interfaces and slices, but bool and enums are not nilable
+	zeroResp := jen.Nil()
+	if !obj.Response.IsList {
+		if obj.Response.Type == "Bool" {
+			zeroResp = jen.False()
+		} else if _, isEnum := g.schema.Enums[obj.Response.Type]; isEnum {
+			zeroResp = jen.Lit(0)
+		}
 	}
 
 	responses := []jen.Code{resp, jen.Error()}
@@ -75,7 +88,7 @@ func (g *Generator) generateMethodFunction(obj *tlparser.Method) jen.Code {
 	method := jen.Func().Params(jen.Id("c").Op("*").Id("Client")).Id(goify(obj.Name, true)).Params(g.generateArgumentsForMethod(obj)...).Params(responses...).Block(
 		jen.List(jen.Id("responseData"), jen.Id("err")).Op(":=").Id("c").Dot("MakeRequest").Call(g.generateMethodArgumentForMakingRequest(obj)),
 		jen.If(jen.Err().Op("!=").Nil()).Block(
-			jen.Return(jen.Nil(), jen.Qual(errorsPackagePath, "Wrap").Call(jen.Err(), jen.Lit("sending "+goify(obj.Name, true)))),
+			jen.Return(zeroResp, jen.Qual(errorsPackagePath, "Wrap").Call(jen.Err(), jen.Lit("sending "+goify(obj.Name, true)))),
 		),
 		jen.Line(),
 		jen.List(jen.Id("resp"), jen.Id("ok")).Op(":=").Id("responseData").Assert(resp),
